@@ -4,8 +4,9 @@
   Proved for ALL deposit sets, requests, status maps, fault streams and histories of the model (Model/C17.lean + the
   status store of Model/C03.lean; tied to the real FilterDeposits / RetryV1EventHandler / RetryMessageHandlers / BTC
   executor by the differential runs):
-    (a) filter_P17 / retryV1_P17: a retry re-emits a sublist (block order) of the matching, not-executed deposits —
-        all of them when no store call fails; pending ↦ failed for the emitted ones; nothing else is written
+    (a) filter_P17 / retryV1_P17: a retry re-emits a sublist (block order) of the matching, not-executed deposits,
+        withholding at most one per failing store call — so all of them when no call fails (filterBy_exact);
+        pending ↦ failed for the emitted ones; nothing else is written
     (b) isExecuted_withholds: a failed read, or a failed write while releasing a pending record, withholds the deposit
     (c) executed_final: along every SEQUENTIAL history of deliveries / recorded outcomes / lost executions / retries,
         with arbitrary store faults, a record that is `executed` stays `executed`.
@@ -160,6 +161,64 @@ theorem filterBy_spec (mt : Dep → Bool) (s : Store) (ds : List Dep) :
       rcases ih3 j with h | ⟨h1, h2, d', hd', hmt, hk⟩
       · exact Or.inl h
       · exact Or.inr ⟨h1, h2, d', List.mem_cons_of_mem _ hd', hmt, hk⟩
+
+/-- a failing store call is consumed by at most one deposit: `isExecuted` never adds faults, and whenever it does not
+    answer "re-emit" for a record that is not `executed`, it has used up a failing call -/
+theorem isExecuted_faults (s : Store) (k : Nat) :
+    (isExecuted s k).2.faults.count true ≤ s.faults.count true ∧
+    ((isExecuted s k).1 ≠ some false → lookup s.m k ≠ .executed →
+      (isExecuted s k).2.faults.count true + 1 ≤ s.faults.count true) := by
+  obtain ⟨m, fs⟩ := s
+  cases hst : lookup m k <;> (
+    rcases fs with _ | ⟨f, _ | ⟨f2, fr⟩⟩ <;> (try cases f) <;> (try cases f2) <;>
+      simp [isExecuted, hst, List.count_cons] <;> omega)
+
+theorem filterBy_count (mt : Dep → Bool) (s : Store) (ds : List Dep) :
+    (eligible s.m mt ds).length + (filterBy mt s ds).2.faults.count true
+      ≤ (filterBy mt s ds).1.length + s.faults.count true := by
+  induction ds generalizing s with
+  | nil => simp [filterBy, eligible]
+  | cons d r ih =>
+    by_cases hm : mt d = true
+    · obtain ⟨_, hwr, _⟩ := isExecuted_spec s d.key
+      obtain ⟨hle, hdrop⟩ := isExecuted_faults s d.key
+      rcases hie : isExecuted s d.key with ⟨ans, s1⟩
+      rw [hie] at hwr hle hdrop
+      simp only at hwr hle hdrop
+      have hweak : ∀ j, lookup s1.m j = lookup s.m j ∨ (lookup s.m j = .pending ∧ lookup s1.m j = .failed) := by
+        intro j; rcases hwr j with h | ⟨_, h2, h3⟩
+        · exact Or.inl h
+        · exact Or.inr ⟨h2, h3⟩
+      have hel : eligible s1.m mt r = eligible s.m mt r := eligible_congr s.m s1.m mt r hweak
+      have ih1 := ih s1
+      rw [hel] at ih1
+      have hlen : (eligible s.m mt (d :: r)).length ≤ (eligible s.m mt r).length + 1 := by
+        unfold eligible; rw [List.filter_cons]; split <;> simp
+      by_cases hans' : ans = some false
+      · subst hans'
+        have hunf : filterBy mt s (d :: r) = (d :: (filterBy mt s1 r).1, (filterBy mt s1 r).2) := by
+          simp [filterBy, hm, hie]
+        rw [hunf]
+        simp only [List.length_cons]
+        omega
+      · have hunf : filterBy mt s (d :: r) = filterBy mt s1 r := by
+          rcases ans with _ | b
+          · simp [filterBy, hm, hie]
+          · cases b
+            · exact absurd rfl hans'
+            · simp [filterBy, hm, hie]
+        rw [hunf]
+        by_cases hex : lookup s.m d.key = .executed
+        · have : eligible s.m mt (d :: r) = eligible s.m mt r := by
+            simp [eligible, List.filter_cons, hex]
+          rw [this]; omega
+        · have := hdrop hans' hex
+          omega
+    · have hm' : mt d = false := by simpa using hm
+      have hunf : filterBy mt s (d :: r) = filterBy mt s r := by simp [filterBy, hm']
+      have helig : eligible s.m mt (d :: r) = eligible s.m mt r := by simp [eligible, List.filter_cons, hm']
+      rw [hunf, helig]
+      exact ih s
 
 theorem storeStatus_lookup (s : Store) (ns : List Nat) (v : Status) (j : Nat) :
     lookup (storeStatus s ns v).m j = lookup s.m j ∨ (j ∈ ns ∧ lookup (storeStatus s ns v).m j = v) := by
@@ -342,20 +401,27 @@ section Property
     only matching, not-executed deposits are re-emitted, in block order; all of them when no store call fails;
     an emitted deposit that was stuck pending is released (failed); nothing else is written. -/
 theorem filterBy_P17 (mt : Dep → Bool) (s : Store) (ds : List Dep) :
-    P17 s.m (faultFree s) mt ds (filterBy mt s ds).1 (filterBy mt s ds).2.m := by
-  obtain ⟨h1, h2, h3, h4⟩ := filterBy_spec mt s ds
-  refine ⟨h1, fun hf => (h2 hf).1, h4, ?_⟩
-  intro d _
-  exact h3 d.key
+    P17 s.m s.faults mt ds (filterBy mt s ds).1 (filterBy mt s ds).2.m := by
+  obtain ⟨h1, _, h3, h4⟩ := filterBy_spec mt s ds
+  refine ⟨h1, ?_, h4, ?_⟩
+  · have := filterBy_count mt s ds
+    omega
+  · intro d _
+    exact h3 d.key
+
+/-- in particular: when no store call fails, exactly the eligible deposits are re-emitted, in block order -/
+theorem filterBy_exact (mt : Dep → Bool) (s : Store) (ds : List Dep) (hf : faultFree s = true) :
+    (filterBy mt s ds).1 = eligible s.m mt ds :=
+  ((filterBy_spec mt s ds).2.1 hf).1
 
 /-- `retry.FilterDeposits` for every request (resource, destination) -/
 theorem filter_P17 (res dest : Nat) (s : Store) (ds : List Dep) :
-    P17 s.m (faultFree s) (isMatch res dest) ds (filterDeposits res dest s ds).1 (filterDeposits res dest s ds).2.m :=
+    P17 s.m s.faults (isMatch res dest) ds (filterDeposits res dest s ds).1 (filterDeposits res dest s ds).2.m :=
   filterBy_P17 _ s ds
 
 /-- `RetryV1EventHandler`: the same with every deposit of the retried transaction matching -/
 theorem retryV1_P17 (s : Store) (ds : List Dep) :
-    P17 s.m (faultFree s) (fun _ => true) ds (retryV1 s ds).1 (retryV1 s ds).2.m :=
+    P17 s.m s.faults (fun _ => true) ds (retryV1 s ds).1 (retryV1 s ds).2.m :=
   filterBy_P17 _ s ds
 
 /-- consequences spelled out: nothing recorded executed is ever re-emitted, nothing of another resource or
